@@ -10,6 +10,18 @@ failure kind (abort after begin / after each store / after vote = a foreign part
 vote, over-long user / description / extension, conflict, quota, calls with a foreign transaction
 at every phase, a failing second resource manager through transaction.commit() on a Connection).
 
+Generalisation pass: 15 storage stacks (FileStorage with / without blob_dir, built directly with default
+and non-default options or by ZODB.config; the BlobStorage wrapper with bushy / lawn layout over FileStorage,
+MappingStorage, HexStorage(FileStorage) and DemoStorage; HexStorage over File / File+blobs / Mapping;
+DemoStorage over Mapping / File, pushed, and the default DemoStorage() with on-demand blobs; an instance of
+the natively multi-version MVCCMappingStorage with a sibling instance alive) — those the Lean model does
+not follow are under the real-code oracle only; victims use every entry point (store, storeBlob, restore /
+restoreBlob with and without back-pointer hint, deleteObject, undo incl. partly failing,
+checkCurrentSerialInTransaction, new_oid), may be empty or larger than 64 KiB right after a larger one;
+calls that come too early (abort / store / vote / finish before begin) and a repeated abort; a second
+storage of the same kind runs whole transactions between the victim's steps; at the end the storage is
+closed and reopened with the saved index and by scan.
+
 A further fault family hits the ABORT ITSELF (the truncate of an abort after a vote, the truncate of the
 vote's except path after a failed write, the removal of a blob file): nothing can be restored then, the
 oracle is "blocks no one" — the call raises, every commit lock is free, the next transaction begins,
@@ -2308,7 +2320,16 @@ def finish(ck):
                            '— after them the readers\' pooled buffers are not dropped by the code (counted as '
                            'observation:abort-fault-stale-pooled-reader)',
                            'undo itself is C06\'s model: undo victims are compared with the model at the level '
-                           'of their begin / vote / abort envelope only',
+                           'of their begin / vote / abort envelope only; the same holds for restore / restoreBlob '
+                           '/ checkCurrentSerialInTransaction / new_oid inside victims',
+                           'ORACLE ONLY (no Lean model; real-code before/after oracle, lock / next-transaction / '
+                           'reopen checks): storage kinds hexfile, hexfileblob, blobhexfile, hexmapping, '
+                           'mvccmapping, blobdemofile, demodefault; the second (buddy) storage instance; the '
+                           'close + reopen check; the whole Connection level (8 storage kinds, explicit '
+                           'transaction managers, multi-database groups, optimistic / failing savepoints, '
+                           'truncated importFile, DB.undo / undoMultiple, DB options and ZODB.config construction)',
+                           'the oid high-water mark (_oid) stays outside the property (DESIGN 6.1; C20 needs it '
+                           'monotone), also when a victim calls new_oid',
                            'oid high-water mark, temp-file bytes, lock-file content and empty blob '
                            'directories are outside the property',
                            'conflict resolution is C10 (every serial mismatch here is unresolvable)',
